@@ -49,7 +49,7 @@ def cmd_import(prop, which, src="/tmp/seed", as_=None):
     t.mkdir(parents=True, exist_ok=True)
     shutil.copy(s / "patch.diff", t / "patch.diff")
     demo = (s / "demo.py").read_text()
-    demo = re.sub(r'["\']/tmp/seed2?/C\d+(/?)["\']',
+    demo = re.sub(r'["\']/tmp/seed\d?/C\d+(/?)["\']',
                   lambda m: '(__import__("os").environ.get("GSCRIB_REPO", "/repo") + "%s")' % m.group(1), demo)
     (t / "demo.py").write_text(demo)
     if (s / "notes.md").exists():
